@@ -7,3 +7,26 @@ Definition run (x : sx) : sx :=
   let l := as_z (nth_sx 0 x) in let e := as_z (nth_sx 1 x) in
   let hs := as_bool (nth_sx 2 x) in let ra := as_bool (nth_sx 3 x) in let rp := as_bool (nth_sx 4 x) in
   L_ [of_bool (req_pred l e hs ra rp); of_bool (req_off l e hs ra rp); of_bool (req_rwds l e hs ra rp); of_bool (should_pred l e hs ra rp)].
+
+(* ---- the loop of every mode with the scripted learner of the correspondence *)
+From Coq Require Import QArith.
+From Coba Require Import C06.ModelLoop.
+Close Scope Q_scope.
+Fixpoint rew_of (acts : list Z) (rews : list Q) (a : Z) : Q :=
+  match acts, rews with x :: acts', r :: rews' => if x =? a then r else rew_of acts' rews' a | _, _ => 0%Q end.
+Definition dec_inter (x : sx) : @inter Z Z :=
+  let acts := as_zs (nth_sx 1 x) in
+  {| x_ctx := as_z (nth_sx 0 x); x_actions := acts; x_rewards := rew_of acts (map as_q (as_l (nth_sx 2 x)));
+     x_action := nth (as_nat (nth_sx 3 x)) acts 0; x_reward := as_q (nth_sx 4 x); x_prob := as_opt as_q (nth_sx 5 x); x_extra := as_z (nth_sx 6 x) |}.
+Definition enc_ev (e : @ev Z Z Z) : sx :=
+  match e with
+  | EP c A => L_ [Z_ 0; Z_ c; of_zs A]
+  | ES c A a => L_ [Z_ 1; Z_ c; of_zs A; Z_ a]
+  | EL c a r p kw => L_ [Z_ 2; Z_ c; Z_ a; of_q r; of_opt of_q p; of_opt Z_ kw]
+  end.
+Definition enc_row (r : @row Z) : sx := L_ [of_opt Z_ (o_action r); of_opt of_q (o_reward r); of_opt of_q (o_prob r); Z_ (o_extra r)].
+Definition run_loop (x : sx) : sx :=
+  let m := nth_sx 0 x in
+  let b k := as_bool (nth_sx k m) in
+  let '(evs, rows) := run Z.eqb (s_predict (b 6%nat)) s_learn s_score (as_z (nth_sx 0 m)) (as_z (nth_sx 1 m)) (b 2%nat) (b 3%nat) (b 4%nat) (b 5%nat) O (map dec_inter (as_l (nth_sx 1 x))) in
+  L_ [L_ (map enc_ev evs); L_ (map enc_row rows)].
